@@ -1,160 +1,303 @@
 (** C16 — Attributes: only the name's owner writes them; lookups and expiry are faithful.
     Only theorem statements here; each is closed by [exact] of a lemma proved in
-    Proofs/AttributeProofs.v about the model Attribute/Attribute.v.
+    Proofs/AttributeProofs.v (+ Proofs/AttrNameKeyProofs.v, Proofs/C16CheckerProofs.v) about the
+    model Attribute/Attribute.v, which is COMPOSED with the name-module model Name/Name.v.
 
-    [run t0 accts ops] is the state after the history [ops] (binds, name transfers and
-    deletions, adds incl. identical re-adds, updates of value/type/expiration, deletes by name
-    and by value, direct purges, blocks with the begin-block sweep) from the empty store at
-    block time [t0], where [accts] says which addresses have an account.  Names are identified
-    by their normalised form; the attribute messages carry, as last argument, the spelling class
-    of the name string actually sent (other letter case, spaces around or inside), and the
-    theorems hold for every spelling.  [step s o] is
-    (state after, accepted?).  All theorems quantify over every such history. *)
-From Coq Require Import ZArith List Bool String.
+    [run cfg t0 ops] is the state after the history [ops] from the empty attribute store and the
+    name store [c_genesis cfg] at block time [t0].  Operations: the three name messages (bind
+    under restricted / unrestricted parents, transfer, deletion — Name/Name.v's own rules, the
+    deletion followed by PurgeAttribute), add (incl. identical re-adds), updates of
+    value/type/expiration, deletes by name and by value, direct purges, account-data writes,
+    MaxValueLength updates, and blocks [OBlock dt limit] (time += dt, DeleteExpiredAttributes
+    with that limit; the BeginBlocker's limit is 100000).  Every name in an operation is the
+    byte string AS SENT (any spelling); holders are account or scope addresses.
+    [step cfg s o] = (state after, accepted?).
+
+    Ownership.  [owner_of s n] is the address in the name record whose STORED name is [n].
+    The name module finds records by a key that is NOT injective on names (C15's known finding:
+    aa.bbcc / ccaa.bb), so the ownership theorems carry the hypothesis that the names occurring
+    in the history — the universe [U] — do not collide:
+      [op_in cfg U o]     every name mentioned by [o], once normalised, is in [U]
+                          (for a bind: child.parent);
+      [genesis_in cfg U]  the stored names of the initial name records are in [U].
+    Without that hypothesis the statement is false of the code and of the model:
+    [C16_only_owner_writes_refuted_under_key_collision]. *)
+From Coq Require Import ZArith NArith List Bool String.
 Import ListNotations.
-From PV Require Import Attribute.Attribute Proofs.AttributeProofs Corr.C16 Proofs.C16CheckerProofs.
+From PV Require Import Name.Name Attribute.Attribute Proofs.AttrNameKeyProofs Proofs.AttributeProofs.
+From PV Require Import Corr.C16 Proofs.C16CheckerProofs.
 Open Scope Z_scope.
 
-(** An add / update / update-expiration / delete / delete-distinct under name [n], and the
-    deletion of [n] itself, is accepted only when the caller is the current owner of [n].
-    PurgeAttribute as a keeper entry point (on chain it is reached only from MsgDeleteName, after
-    the owner check) additionally accepts any caller holding an account when the name does not
-    exist — and then it changes nothing at all, because no attribute lives under an unbound name. *)
-Theorem C16_only_owner_writes : forall t0 accts ops o,
-  let s := run t0 accts ops in
-  snd (step s o) = true ->
+(** An add / update / update-expiration / delete / delete-distinct under a name, and the
+    deletion of the name itself, is accepted only when the caller is the current owner of the
+    name the request's spelling normalises to.  PurgeAttribute as a keeper entry point (on chain
+    it is reached only from MsgDeleteName, with the normalised name, after the owner check), when
+    given a normalised name, additionally accepts any caller holding an account if no record is
+    found for the name — and then it changes nothing at all.  SetAccountData either changes
+    nothing or writes as the owner of "accountdata" (the attribute module account). *)
+Theorem C16_only_owner_writes : forall cfg U,
+  (forall n1 n2, In n1 U -> In n2 U -> name_key_preimage n1 = name_key_preimage n2 -> n1 = n2) ->
+  genesis_in cfg U ->
+  forall t0 ops o, Forall (op_in cfg U) ops -> op_in cfg U o ->
+  let s := run cfg t0 ops in
+  snd (step cfg s o) = true ->
   match o with
-  | OAdd c _ n _ _ _ _ | OUpdate c _ n _ _ _ _ _ | OUpdateExp c _ n _ _ _
-  | ODelete c _ n _ | ODeleteDistinct c _ n _ _ | ODeleteName c n => s_owner s n = Some c
-  | OPurge c n => s_owner s n = Some c \/ (s_owner s n = None /\ fst (step s o) = s)
+  | OAdd c _ name _ _ _ | OUpdate c _ name _ _ _ _ | OUpdateExp c _ name _ _
+  | ODelete c _ name | ODeleteDistinct c _ name _ | ODeleteName name c =>
+      exists n, normalize (c_params cfg) name = Some n /\ owner_of s n = Some c
+  | OPurge c name =>
+      normalize (c_params cfg) name = Some name ->
+      owner_of s name = Some c \/ (get_record idh (s_names s) name = None /\ fst (step cfg s o) = s)
+  | OSetAccountData _ _ _ =>
+      owner_of s account_data_name = Some mod_addr \/ fst (step cfg s o) = s
   | _ => True
   end.
 Proof. exact only_owner_writes_all. Qed.
 Print Assumptions C16_only_owner_writes.
 
 (** If an attribute [r] present before a step has no record under its key after it, then the
-    step was: a delete (by name, or by name and value) or a value update of exactly that
-    attribute by the name's current owner; the deletion of its name, or a purge of its name, by
-    the name's current owner; or a block beginning at a time strictly later than the expiration
-    CURRENTLY stored on [r].  Nothing else (adds, re-adds, expiration updates, other people's
-    operations, rejected operations, name transfers, stale queue entries) removes it. *)
-Theorem C16_disappears_only_when : forall t0 accts ops o r,
-  let s := run t0 accts ops in
-  let s' := fst (step s o) in
+    step was: a delete (by name, or by name and value) of exactly that attribute, spelled exactly
+    as stored, by the name's current owner; a value update addressing exactly that attribute by
+    the owner of the name the request normalises to — which IS the attribute's name; the
+    deletion of its name by the name's owner; a direct purge whose name has the attribute's store
+    key (and, when that name is normalised, is the attribute's name, purged by its owner); an
+    account-data write on its account, the attribute being the account's "accountdata", the
+    module account owning that name; or a block beginning at a time strictly later than the
+    expiration CURRENTLY stored on [r].  Nothing else (adds, re-adds, expiration updates, other
+    people's operations, other spellings, rejected operations, name transfers, parameter
+    updates, stale queue entries) removes it. *)
+Theorem C16_disappears_only_when : forall cfg U,
+  (forall n1 n2, In n1 U -> In n2 U -> name_key_preimage n1 = name_key_preimage n2 -> n1 = n2) ->
+  genesis_in cfg U ->
+  forall t0 ops o r, Forall (op_in cfg U) ops -> op_in cfg U o ->
+  let s := run cfg t0 ops in
+  let s' := fst (step cfg s o) in
   In r (s_recs s) ->
   (forall r', In r' (s_recs s') -> akey r' <> akey r) ->
   match o with
-  | ODelete c a n _ => a_acct r = a /\ a_name r = n /\ s_owner s n = Some c
-  | ODeleteDistinct c a n v _ => a_acct r = a /\ a_name r = n /\ a_val r = v /\ s_owner s n = Some c
-  | OUpdate c a n ov _ _ _ _ => akey r = (a, n, ov) /\ s_owner s n = Some c
-  | ODeleteName c n | OPurge c n => a_name r = n /\ s_owner s n = Some c
-  | OBlock dt => exists e, a_exp r = Some e /\ e < s_now s + dt
+  | ODelete c a name => a_acct r = a /\ a_name r = name /\ owner_of s name = Some c
+  | ODeleteDistinct c a name v => a_acct r = a /\ a_name r = name /\ a_val r = v /\ owner_of s name = Some c
+  | OUpdate c a name ov _ _ _ =>
+      akey r = (a, ank name, ov) /\ normalize (c_params cfg) name = Some (a_name r) /\
+      owner_of s (a_name r) = Some c
+  | ODeleteName name c => normalize (c_params cfg) name = Some (a_name r) /\ owner_of s (a_name r) = Some c
+  | OPurge c name =>
+      ank (a_name r) = ank name /\
+      (normalize (c_params cfg) name = Some name -> a_name r = name /\ owner_of s name = Some c)
+  | OSetAccountData _ a _ =>
+      a_acct r = a /\ a_name r = account_data_name /\ owner_of s account_data_name = Some mod_addr
+  | OBlock dt _ => exists e, a_exp r = Some e /\ e < s_now s + dt
   | _ => False
   end.
 Proof. exact disappears_only_when_all. Qed.
 Print Assumptions C16_disappears_only_when.
 
-(** The per-(name, account) counter is never below the number of records of that name on that
-    account; hence AccountsByAttribute (the accounts with a positive counter) lists every holder.
-    (The counter can over-count: SetAttribute increments it again when an identical attribute is
-    re-added — see [C16_counter_overcounts] — which may list a former holder, never omit one.) *)
-Theorem C16_lookup_never_omits : forall t0 accts ops,
-  let s := run t0 accts ops in
+(** The per-(name key, account) counter is never below the number of records of that name on
+    that account; hence AccountsByAttribute / the AttributeAccounts query (the accounts with a
+    positive counter) list every holder, account or scope.  No hypothesis about names.
+    (The counter can over-count — [C16_counter_overcounts] — which may list a former holder,
+    never omit one.) *)
+Theorem C16_lookup_never_omits : forall cfg t0 ops,
+  let s := run cfg t0 ops in
   (forall n a, count_recs n a (s_recs s) <= s_cnt s n a) /\
   (forall r universe, In r (s_recs s) -> In (a_acct r) universe ->
                       In (a_acct r) (accounts_by_attribute s (a_name r) universe)).
 Proof. exact lookup_never_omits_all. Qed.
 Print Assumptions C16_lookup_never_omits.
 
+(** Lookup faithfulness of the gRPC queries on every reachable state: Attributes(account),
+    Attribute(account, name — in ANY spelling that has the record's store key) and
+    Scan(account, suffix) return every stored attribute whose expiration has not passed, only
+    stored attributes of that account (name key / suffix), and never one whose stored
+    expiration is before the block time — swept or not. *)
+Theorem C16_queries_faithful : forall cfg t0 ops r a name suf,
+  let s := run cfg t0 ops in
+  (In r (s_recs s) -> live (s_now s) r = true ->
+     In r (q_attributes s (a_acct r)) /\
+     (forall name, ank name = ank (a_name r) -> In r (q_attribute s (a_acct r) name)) /\
+     (forall suf, has_suffix (a_name r) suf = true -> In r (q_scan s (a_acct r) suf))) /\
+  (In r (q_attributes s a) -> In r (s_recs s) /\ a_acct r = a /\ expired (s_now s) r = false) /\
+  (In r (q_attribute s a name) ->
+     In r (s_recs s) /\ a_acct r = a /\ ank (a_name r) = ank name /\ expired (s_now s) r = false) /\
+  (In r (q_scan s a suf) ->
+     In r (s_recs s) /\ a_acct r = a /\ has_suffix (a_name r) suf = true /\ expired (s_now s) r = false).
+Proof.
+  exact (fun cfg t0 ops r a name suf =>
+           conj (queries_faithful (run cfg t0 ops) r) (queries_sound (run cfg t0 ops) a name suf r)).
+Qed.
+Print Assumptions C16_queries_faithful.
+
+(** A request spelling whose store key (lower-cased, trimmed as a whole) is the key of a stored,
+    normalised name normalises to exactly that name: the key-based lookups and the
+    normalisation-based ownership check speak about the same name. *)
+Theorem C16_store_key_identifies_the_name : forall p raw n raw' m,
+  normalize p raw = Some n -> normalize p raw' = Some m -> ank raw = ank m -> n = m.
+Proof. exact ank_hits_normalised. Qed.
+Print Assumptions C16_store_key_identifies_the_name.
+
 (** An attribute whose stored expiration [e] is before the time [t = now + dt] at which the next
-    block begins is gone after that block's sweep. *)
-Theorem C16_expired_gone_after_sweep : forall t0 accts ops r e dt,
-  let s := run t0 accts ops in
+    block begins is gone after that block's sweep with limit [limit], PROVIDED no more attributes
+    have expired by [t] than the limit allows ([limit = 0] means no limit; the BeginBlocker
+    passes 100000). *)
+Theorem C16_expired_gone_after_sweep : forall cfg t0 ops r e dt limit,
+  let s := run cfg t0 ops in
   In r (s_recs s) -> a_exp r = Some e -> 0 <= dt -> e < s_now s + dt ->
-  forall r', In r' (s_recs (fst (step s (OBlock dt)))) -> akey r' <> akey r.
+  (limit = 0 \/ ecount (s_now s + dt) s <= limit) ->
+  forall r', In r' (s_recs (fst (step cfg s (OBlock dt limit)))) -> akey r' <> akey r.
 Proof. exact expired_gone_after_sweep_all. Qed.
 Print Assumptions C16_expired_gone_after_sweep.
 
-(** The structural invariants the above rest on: one record per (account, name, value); every
-    stored expiration has a matching queue entry; no attribute lives under an unbound name. *)
-Theorem C16_store_well_formed : forall t0 accts ops,
-  let s := run t0 accts ops in
+(** Without that proviso: after [k] consecutive blocks (time steps [dts], all with limit
+    [limit] > 0), an attribute that had expired when the first of them began is gone, as soon as
+    [k * limit] covers the number of attributes expired by the last block's time. *)
+Theorem C16_expired_gone_within_blocks : forall cfg t0 ops limit dts r e,
+  let s := run cfg t0 ops in
+  0 < limit -> Forall (fun dt => 0 <= dt) dts ->
+  In r (s_recs s) -> a_exp r = Some e ->
+  match dts with dt :: _ => e < s_now s + dt | [] => False end ->
+  ecount (s_now s + fold_right Z.add 0 dts) s <= limit * Z.of_nat (List.length dts) ->
+  forall r', In r' (s_recs (run cfg t0 (ops ++ blocks limit dts))) -> akey r' <> akey r.
+Proof. exact expired_gone_eventually_all. Qed.
+Print Assumptions C16_expired_gone_within_blocks.
+
+(** The structural invariants the above rest on (no hypothesis about names): one record per
+    (account, name key, value); every stored expiration has a matching queue entry; the queue
+    has no duplicates; every stored attribute name is in normal form. *)
+Theorem C16_store_well_formed : forall cfg t0 ops,
+  let s := run cfg t0 ops in
   NoDup (map akey (s_recs s)) /\
   (forall r e, In r (s_recs s) -> a_exp r = Some e -> In (e, akey r) (s_queue s)) /\
-  (forall r, In r (s_recs s) -> s_owner s (a_name r) <> None).
+  NoDup (s_queue s) /\
+  (forall r, In r (s_recs s) -> normalize (c_params cfg) (a_name r) = Some (a_name r)).
 Proof. exact well_formed_all. Qed.
 Print Assumptions C16_store_well_formed.
 
-(** The bridge to the run-time check: the executable checker [prop_step] of Corr/C16.v, which each
+(** ... and, for non-colliding names, no attribute lives under an unbound name. *)
+Theorem C16_every_attribute_name_is_owned : forall cfg U,
+  (forall n1 n2, In n1 U -> In n2 U -> name_key_preimage n1 = name_key_preimage n2 -> n1 = n2) ->
+  genesis_in cfg U ->
+  forall t0 ops, Forall (op_in cfg U) ops ->
+  let s := run cfg t0 ops in
+  forall r, In r (s_recs s) -> exists c, owner_of s (a_name r) = Some c.
+Proof. exact named_all. Qed.
+Print Assumptions C16_every_attribute_name_is_owned.
+
+(** The bridge to the run-time check: the executable checker [prop_core] of Corr/C16.v, which each
     run evaluates on the IMPLEMENTATION's consecutive observations (tags prop:only_owner_writes,
     prop:disappears_only_when, prop:lookup_never_omits, prop:expired_gone_after_sweep,
     prop:rejected_changes_nothing), reports nothing on the model's own observations, for every
-    history and next operation that stay inside the declared account / name universes.  So a
-    "prop:" failure on the real code is a behaviour the model cannot show. *)
-Theorem C16_checker_holds_on_model : forall t0 have accts names ops o b,
-  Forall (op_ok accts names) ops -> op_ok accts names o ->
-  let s := run t0 have ops in
-  prop_step names (model_obs accts names s b) (s_now s) o
-            (model_obs accts names (fst (step s o)) (snd (step s o))) = [].
+    history and next operation that stay inside the declared, collision-free universes.  So such
+    a "prop:" failure on the real code is a behaviour the model cannot show. *)
+Theorem C16_checker_holds_on_model : forall cfg accts names t0 ops o b q q',
+  coll_freeb names = true -> genesis_inb cfg names = true ->
+  Forall (op_ok cfg accts names) ops -> op_ok cfg accts names o ->
+  let s := run cfg t0 ops in
+  prop_core (c_params cfg) names (model_obs cfg accts names s b q) (s_now s) o
+            (model_obs cfg accts names (fst (step cfg s o)) (snd (step cfg s o)) q') = [].
 Proof. exact checker_holds_on_model_histories. Qed.
 Print Assumptions C16_checker_holds_on_model.
 
-(** Non-vacuity.  Owner 1 binds name 1, adds (account 2, name 1, value 1) expiring at 105, then
-    re-adds the identical attribute with type 5 expiring at 120 (the old queue entry stays).
-    A block at 110 crosses the stale entry: the attribute is still there with expiration 120.
-    A block at 121 removes it.  A stranger's add and delete are rejected; a purge of an unbound
-    name by a stranger is accepted and changes nothing. *)
-Definition ex_accts (a : Z) : bool := (a =? 1) || (a =? 2) || (a =? 3).
+(** ** The known finding of C15 seen through attributes.
+    Root names "bbcc" and "bb" belong to address 9; 9 binds aa.bbcc for address 1.  Address 1 is
+    then accepted as writer under the never-bound name "ccaa.bb" (whose name-module key is that
+    of "aa.bbcc"): nobody owns "ccaa.bb", so "only the current owner of a name can add
+    attributes under that name" fails.  After 1 deletes aa.bbcc the attribute under ccaa.bb
+    survives the purge, lives under an unbound name, and address 3 — a stranger — may delete it. *)
+Definition col_cfg : config :=
+  mk_config (Cfg 2 32 16 [("bbcc", 9%N, true); ("bb", 9%N, true)]%string [1%N; 2%N; 3%N; 9%N] [] [(1, 2)] [] [] [] 10000).
+
+Theorem C16_only_owner_writes_refuted_under_key_collision :
+  exists cfg t0 ops c a name v ty e,
+    let s := run cfg t0 ops in
+    snd (step cfg s (OAdd c a name v ty e)) = true /\
+    normalize (c_params cfg) name = Some name /\
+    owner_of s name = None /\
+    (* ... and later a stranger deletes that attribute *)
+    exists ops' c', let s' := run cfg t0 (ops ++ OAdd c a name v ty e :: ops') in
+      c' <> c /\ s_recs s' <> [] /\ snd (step cfg s' (ODelete c' a name)) = true /\
+      s_recs (fst (step cfg s' (ODelete c' a name))) = [].
+Proof.
+  exists col_cfg, 100, [OBind "bbcc" 9%N "aa" 1%N true], 1%N, 2%N, "ccaa.bb"%string, 1, 3, None.
+  cbn zeta. split; [vm_compute; reflexivity|]. split; [vm_compute; reflexivity|]. split; [vm_compute; reflexivity|].
+  exists [ODeleteName "aa.bbcc" 1%N], 3%N. cbn zeta.
+  split; [discriminate|]. split; [vm_compute; discriminate|]. split; vm_compute; reflexivity.
+Qed.
+Print Assumptions C16_only_owner_writes_refuted_under_key_collision.
+
+(** ** Non-vacuity. *)
+Definition ex_cfg : config :=
+  mk_config (Cfg 2 32 16 [("accountdata", 8%N, true); ("c16", 9%N, true); ("open", 9%N, false)]%string
+                 [1%N; 2%N; 3%N; 8%N; 9%N] [(5%N, 1); (6%N, 2)] [(1, 2); (2, 2); (3, 2); (4, 10)] [] [] [] 10000).
+Definition ex_U : list string := ["aa.c16"; "aa.open"; "c16"; "open"; "accountdata"]%string.
+(** Owner 9 of the restricted root binds aa.c16 for address 1, who adds (account 2, value 1)
+    expiring at 105, then re-adds the identical attribute — name spelled " AA.c16" — with type 5
+    expiring at 120 (the old queue entry stays).  A block at 110 crosses the stale entry. *)
 Definition ex_hist : list op :=
-  [OBind 1 1; OAdd 1 2 1 1 3 (Some 105) 0; OAdd 1 2 1 1 5 (Some 120) 2; OBlock 10].
-Definition ex_rec : attr := {| a_acct := 2; a_name := 1; a_val := 1; a_type := 5; a_exp := Some 120 |}.
+  [OBind "c16" 9%N "aa" 1%N true; OAdd 1%N 2%N "aa.c16" 1 3 (Some 105); OAdd 1%N 2%N " AA.c16" 1 5 (Some 120);
+   OBlock 10 100000]%string.
+Definition ex_rec : attr := {| a_acct := 2%N; a_name := "aa.c16"; a_val := 1; a_type := 5; a_exp := Some 120 |}.
 
 Example C16_witness :
-  let s := run 100 ex_accts ex_hist in
-  s_recs s = [ex_rec] /\ s_now s = 110 /\ s_queue s = [(120, (2, 1, 1))] /\
-  s_owner s 1 = Some 1 /\
-  accounts_by_attribute s 1 [1; 2; 3] = [2] /\
-  s_recs (fst (step s (OBlock 10))) = [ex_rec] /\          (* 120 is not before 120 *)
-  s_recs (fst (step s (OBlock 11))) = [] /\                (* 120 < 121 *)
-  snd (step s (OAdd 2 3 1 2 3 None 0)) = false /\          (* stranger *)
-  snd (step s (ODelete 2 2 1 0)) = false /\
-  snd (step s (ODelete 2 2 1 2)) = false /\                (* stranger, name in another letter case *)
-  snd (step s (ODeleteDistinct 2 2 1 1 2)) = false /\
-  snd (step s (ODelete 1 2 1 2)) = false /\                (* even the owner: DeleteAttribute matches the raw name *)
-  snd (step s (OUpdateExp 1 2 1 1 None 4)) = true /\       (* normalised: any spelling, owner *)
-  snd (step s (OUpdateExp 2 2 1 1 None 4)) = false /\      (* normalised: any spelling, stranger *)
-  snd (step s (ODelete 1 2 1 0)) = true /\
-  snd (step s (OPurge 3 2)) = true /\ s_recs (fst (step s (OPurge 3 2))) = [ex_rec].
+  (forall n1 n2, In n1 ex_U -> In n2 ex_U -> name_key_preimage n1 = name_key_preimage n2 -> n1 = n2) /\
+  genesis_in ex_cfg ex_U /\ Forall (op_in ex_cfg ex_U) ex_hist /\
+  let s := run ex_cfg 100 ex_hist in
+  s_recs s = [ex_rec] /\ s_now s = 110 /\ s_queue s = [(120, (2%N, "aa.c16"%string, 1))] /\
+  owner_of s "aa.c16" = Some 1%N /\
+  accounts_by_attribute s "aa.c16" [1%N; 2%N; 3%N] = [2%N] /\
+  s_recs (fst (step ex_cfg s (OBlock 10 100000))) = [ex_rec] /\     (* 120 is not before 120 *)
+  s_recs (fst (step ex_cfg s (OBlock 11 100000))) = [] /\           (* 120 < 121 *)
+  snd (step ex_cfg s (OAdd 2%N 3%N "aa.c16" 2 3 None)) = false /\    (* stranger *)
+  snd (step ex_cfg s (ODelete 2%N 2%N "aa.c16")) = false /\
+  snd (step ex_cfg s (ODelete 2%N 2%N "AA.c16")) = false /\          (* stranger, other letter case *)
+  snd (step ex_cfg s (ODelete 1%N 2%N "AA.c16")) = false /\          (* even the owner: DeleteAttribute matches the raw name *)
+  snd (step ex_cfg s (OUpdateExp 1%N 2%N "aa . C16" 1 None)) = true /\  (* normalised: any spelling, owner *)
+  snd (step ex_cfg s (OUpdateExp 2%N 2%N "aa . C16" 1 None)) = false /\
+  snd (step ex_cfg s (OAdd 1%N 5%N "aa.c16" 4 3 None)) = true /\      (* a scope as holder, a 10-byte value *)
+  snd (step ex_cfg s (OAdd 1%N 6%N "aa.c16" 1 3 None)) = false /\     (* a session address is not a holder *)
+  snd (step ex_cfg (fst (step ex_cfg s (OSetMaxLen 0%N 9))) (OAdd 1%N 5%N "aa.c16" 4 3 None)) = false /\
+  snd (step ex_cfg s (ODelete 1%N 2%N "aa.c16")) = true /\
+  (* the name changes hands: the former owner is refused, the new one accepted *)
+  (let s2 := fst (step ex_cfg s (OModifyName 1%N "aa.c16" 3%N true)) in
+   snd (step ex_cfg s2 (ODelete 1%N 2%N "aa.c16")) = false /\ snd (step ex_cfg s2 (ODelete 3%N 2%N "aa.c16")) = true) /\
+  (* unrestricted parent: anybody binds under "open" and then owns the new name *)
+  (let s3 := fst (step ex_cfg s (OBind "open" 3%N "aa" 3%N false)) in
+   snd (step ex_cfg s3 (OAdd 3%N 2%N "aa.open" 2 3 None)) = true /\ snd (step ex_cfg s (OBind "c16" 3%N "bb" 3%N false)) = false) /\
+  snd (step ex_cfg s (OPurge 3%N "zz.c16")) = true /\ s_recs (fst (step ex_cfg s (OPurge 3%N "zz.c16"))) = [ex_rec].
+Proof.
+  split; [apply coll_freeb_sound; vm_compute; reflexivity|].
+  split; [apply genesis_inb_sound; vm_compute; reflexivity|].
+  split; [apply ops_inb_sound; vm_compute; reflexivity|].
+  vm_compute. repeat split.
+Qed.
+
+(** The sweep limit: three attributes expire by 110; with limit 2 one block deletes two of them,
+    the second block the third ([C16_expired_gone_within_blocks] with k = 2). *)
+Example C16_limit_witness :
+  let s := run ex_cfg 100 [OBind "c16" 9%N "aa" 1%N true; OAdd 1%N 2%N "aa.c16" 1 3 (Some 101);
+                            OAdd 1%N 2%N "aa.c16" 2 3 (Some 102); OAdd 1%N 3%N "aa.c16" 3 3 (Some 103)]%string in
+  ecount 110 s = 3 /\
+  List.length (s_recs (fst (step ex_cfg s (OBlock 10 2)))) = 1%nat /\
+  s_recs (run_from ex_cfg s (blocks 2 [10; 0])) = [] /\
+  s_recs (fst (step ex_cfg s (OBlock 10 3))) = [] /\
+  (* what the queries show after the cut-off sweep: nothing expired *)
+  q_attributes (fst (step ex_cfg s (OBlock 10 2))) 3%N = [] /\ q_attributes (fst (step ex_cfg s (OBlock 10 2))) 2%N = [].
 Proof. vm_compute. repeat split. Qed.
 
-(** The over-count: after the identical re-add the counter of (name 1, account 2) is 2 with one
+(** The over-count: after the identical re-add the counter of (aa.c16, account 2) is 2 with one
     record, so after the owner deletes the attribute the account is still listed. *)
 Example C16_counter_overcounts :
-  let s := run 100 ex_accts ex_hist in
-  s_cnt s 1 2 = 2 /\ count_recs 1 2 (s_recs s) = 1 /\
-  let s' := fst (step s (ODelete 1 2 1 0)) in
-  s_recs s' = [] /\ accounts_by_attribute s' 1 [1; 2; 3] = [2].
+  let s := run ex_cfg 100 ex_hist in
+  s_cnt s "aa.c16" 2%N = 2 /\ count_recs "aa.c16" 2%N (s_recs s) = 1 /\
+  let s' := fst (step ex_cfg s (ODelete 1%N 2%N "aa.c16")) in
+  s_recs s' = [] /\ accounts_by_attribute s' "aa.c16" [1%N; 2%N; 3%N] = [2%N].
 Proof. vm_compute. repeat split. Qed.
 
-(** The universes hypothesis of [C16_checker_holds_on_model] is met by the example history. *)
-Example C16_checker_witness :
-  Forall (op_ok [1; 2; 3] [1; 2; 3]) ex_hist /\
-  check (History 100 [1; 2; 3] [1; 2; 3] [1; 2; 3]
-           [(OBind 1 1, Obs true [] [[]; []; []] [Some 1; None; None]);
-            (OAdd 1 2 1 1 3 (Some 105) 0, Obs true [(2, 1, 1, 3, Some 105)] [[2]; []; []] [Some 1; None; None]);
-            (OAdd 1 2 1 1 5 (Some 120) 2, Obs true [(2, 1, 1, 5, Some 120)] [[2]; []; []] [Some 1; None; None]);
-            (OBlock 10, Obs true [(2, 1, 1, 5, Some 120)] [[2]; []; []] [Some 1; None; None]);
-            (OBlock 11, Obs true [] [[2]; []; []] [Some 1; None; None])]) = [] /\
-  (* what the code did before the repair (attribute gone at the OLD expiration) is flagged *)
-  check (History 100 [1; 2; 3] [1; 2; 3] [1; 2; 3]
-           [(OBind 1 1, Obs true [] [[]; []; []] [Some 1; None; None]);
-            (OAdd 1 2 1 1 3 (Some 105) 0, Obs true [(2, 1, 1, 3, Some 105)] [[2]; []; []] [Some 1; None; None]);
-            (OAdd 1 2 1 1 5 (Some 120) 2, Obs true [(2, 1, 1, 5, Some 120)] [[2]; []; []] [Some 1; None; None]);
-            (OBlock 10, Obs true [] [[2]; []; []] [Some 1; None; None])])
-    = ["corr:attributes @step 3"; "prop:disappears_only_when @step 3"]%string.
-Proof.
-  split; [|split].
-  - unfold ex_hist. repeat constructor; cbn; tauto.
-  - vm_compute. reflexivity.
-  - vm_compute. reflexivity.
-Qed.
+(** PurgeAttribute trusts its caller to pass a normalised name (DeleteName does): called
+    directly with another letter case, the name module finds no record ("AA.c16" is not bound),
+    the ownership check is skipped, and the attribute store's case-insensitive key matches —
+    a stranger wipes the name's attributes.  Not reachable through any message. *)
+Example C16_purge_wants_a_normalised_name :
+  let s := run ex_cfg 100 ex_hist in
+  snd (step ex_cfg s (OPurge 3%N "AA.c16")) = true /\ s_recs (fst (step ex_cfg s (OPurge 3%N "AA.c16"))) = [] /\
+  snd (step ex_cfg s (OPurge 3%N "aa.c16")) = false.
+Proof. vm_compute. repeat split. Qed.
